@@ -2,6 +2,7 @@
 //! on the same case files the extracted Coq model is run on, printing canonical result lines.
 
 mod m_seq;
+mod m_signals;
 mod m_token;
 mod m_transient;
 
@@ -14,6 +15,7 @@ fn main() {
     let args: Vec<String> = std::env::args().collect();
     match args.get(1).map(|s| s.as_str()) {
         Some("token") => m_token::run(),
+        Some("signals") => m_signals::run(),
         Some("transient") => m_transient::run(),
         Some("seq") => m_seq::run(args.get(2).expect("scenario file")),
         _ => {
